@@ -45,6 +45,9 @@ def variant(M, gname, nmul, perm, rev, f=catalogue.F0):
             raise symx.HarnessError('C06 variants: wires only')
         p1, p2 = (o[3], o[2]) if rev[k] else (o[2], o[3])
         w = M.Wire(o[1], *p1, *p2, o[4])
+        if len(o) > 5:
+            # a tapered wire keeps its short segments at the same physical end when it is entered the other way round
+            w.segtype = (3 - o[5]) if (rev[k] and o[5] in (1, 2)) else o[5]
         geo.append(w)
     return M.Mininec(f, geo, media=[M.Medium(0, 0)] if gnd else None)
 
@@ -373,13 +376,13 @@ def main(args):
     ck.shadow_stats = symx.load().stats
     parts = []
     if ck.tier == 'quick':
-        for g, nch in (('G2', 2), ('G5', 4), ('G9', 2), ('G10', 4), ('G16', 2), ('G8', 1)):
+        for g, nch in (('G2', 2), ('G5', 4), ('G9', 2), ('G10', 4), ('G16', 2), ('G8', 1), ('G21', 2), ('G22', 2)):
             parts += [('matrix', (g, 1, c, nch)) for c in range(nch)]
         for g in ('G2', 'G6', 'G9'):
             parts += [('rhs_far', (g, c, 2)) for c in range(2)]
         parts += [('near_rel', (g,)) for g in ('G2', 'G3')]
     else:
-        for g, nch in (('G2', 2), ('G4', 2), ('G5', 12), ('G6', 12), ('G9', 2), ('G10', 12), ('G16', 2), ('G8', 1)):
+        for g, nch in (('G2', 2), ('G4', 2), ('G5', 12), ('G6', 12), ('G9', 2), ('G10', 12), ('G16', 2), ('G8', 1), ('G21', 2), ('G22', 2)):
             parts += [('matrix', (g, 2 if nch <= 2 else 1, c, nch)) for c in range(nch)]
         for g, nch in (('G2', 1), ('G5', 6), ('G6', 6), ('G9', 1), ('G10', 6), ('G16', 1)):
             parts += [('rhs_far', (g, c, nch)) for c in range(nch)]
